@@ -22,3 +22,13 @@ OPTS = {"quick": {"path_wall": 10.0}, "thorough": {"path_wall": 12.0}}
 
 def items(tier, rng):
     return C.build_items(tier, rng, "C01")
+
+
+def _only_empty_clauses(cex):
+    """The recorded finding: the formula is a non-empty list of EMPTY clauses and there are no assumptions (n_vars == 0 early return)."""
+    ob = cex.get("observed") or {}
+    cl = ob.get("clauses")
+    return isinstance(cl, list) and len(cl) > 0 and all(len(c) == 0 for c in cl) and not ob.get("assumptions")
+
+
+KNOWN_CLASSES = {"only_empty_clauses": _only_empty_clauses}
